@@ -264,37 +264,7 @@ func runC20(c *Ctx) {
 
 	r4 := c.Rule("R4", "the store repository refreshes (or evicts) the cached StoreInfo after every successful metadata write, on the commit path and in the undo closure, and evicts it before removing the store", 7)
 	{
-		f := w.Fn("fs.StoreRepository.Update")
-		_ = w.G(f)
-		c.Analysed(f)
-		nW := 0
-		for _, fn := range append([]*Func{f}, w.allLits(f)...) {
-			gf := w.G(fn)
-			until := func(n *GNode) bool {
-				if n.RangeHead != nil || n.Exit || n.Ret != nil {
-					return true
-				}
-				_, isInc := n.Ast.(*ast.IncDecStmt) // post statement of a counted loop: next store
-				return isInc
-			}
-			name := "StoreRepository.Update"
-			if fn != f {
-				name = "StoreRepository.Update (undo closure)"
-			}
-			for _, nc := range gf.callNodes("fs.fileIO.write") {
-				nW++
-				construct := fmt.Sprintf("%s: successful storeinfo write #%d is followed by a cache refresh or eviction of that store", name, ordinalOf(w, fn, nc.cs))
-				_, succ, ok := gf.ErrBranches(nc.n, nc.cs)
-				if !ok {
-					c.Violated(r4, construct, nc.cs.Call.Pos(), "the result of the write is not tested", nil)
-					continue
-				}
-				offs := gf.MustFollowFrom(succ, calls(kL2Set, kL2Del), until)
-				c.Offences(gf, offs, r4, construct, nc.cs.Call.Pos(), "SetStruct / Delete after the successful write, before the next store",
-					"a store's metadata is rewritten on disk while the shared cache keeps (or was just re-seeded with) the previous record: readers and the next Update, which adds its delta to the cached count, work from a count that is not the one on disk")
-			}
-		}
-		c.Check(nW >= 4, r4, "StoreRepository.Update: storeinfo write sites inventoried", f.Decl.Pos(), fmt.Sprintf("%d write sites (commit path and undo)", nW), fmt.Sprintf("found %d write sites, expected at least 4", nW), nil)
+		updateCacheCoherenceRule(c, r4)
 		fr := w.Fn("fs.StoreRepository.Remove")
 		gr := w.G(fr)
 		c.Analysed(fr)
@@ -415,4 +385,114 @@ func registryCacheAfterWriteRule(c *Ctx, r2 string) {
 		}
 		c.Check(okAll, r2, shortKey(spec.fn)+": L1 and L2 are refreshed for every written handle", f.Decl.Pos(), "Handles.Set and SetStruct inside loops over the written payload", "a written handle is not propagated to one of the caches (a later read is served the old handle)", nil)
 	}
+}
+
+// updateCacheCoherenceRule (part of C20.R4, shared by C06.R6): in fs.StoreRepository.Update and its closures every
+// successful storeinfo write is followed by a cache refresh / eviction of that store, and the record cached is
+// the record written.
+func updateCacheCoherenceRule(c *Ctx, r4 string) {
+	w := c.W
+	const (
+		kL2Set = "sop.L2Cache.SetStruct"
+		kL2Del = "sop.L2Cache.Delete"
+	)
+	f := w.Fn("fs.StoreRepository.Update")
+	_ = w.G(f)
+	c.Analysed(f)
+	nW := 0
+	for _, fn := range append([]*Func{f}, w.allLits(f)...) {
+		gf := w.G(fn)
+		until := func(n *GNode) bool {
+			if n.RangeHead != nil || n.Exit || n.Ret != nil {
+				return true
+			}
+			_, isInc := n.Ast.(*ast.IncDecStmt) // post statement of a counted loop: next store
+			return isInc
+		}
+		name := "StoreRepository.Update"
+		if fn != f {
+			name = "StoreRepository.Update (undo closure)"
+		}
+		for _, nc := range gf.callNodes("fs.fileIO.write") {
+			nW++
+			construct := fmt.Sprintf("%s: successful storeinfo write #%d is followed by a cache refresh or eviction of that store", name, ordinalOf(w, fn, nc.cs))
+			_, succ, ok := gf.ErrBranches(nc.n, nc.cs)
+			if !ok {
+				c.Violated(r4, construct, nc.cs.Call.Pos(), "the result of the write is not tested", nil)
+				continue
+			}
+			// the record cached is the record written: the data written derives from X.Count (in-place patch) or
+			// Marshal(X); the next cache refresh on the success path must be handed &X
+			{
+				defsAll := map[types.Object][]ast.Expr{}
+				for _, fx := range append([]*Func{f}, w.allLits(f)...) {
+					for k, v := range localDefs(fx) {
+						defsAll[k] = append(defsAll[k], v...)
+					}
+				}
+				finfo := fn.Pkg.TypesInfo
+				written := ""
+				if len(nc.cs.Call.Args) == 3 {
+					var visit func(e ast.Expr, depth int)
+					seenO := map[types.Object]bool{}
+					visit = func(e ast.Expr, depth int) {
+						if depth > 4 || written != "" {
+							return
+						}
+						ast.Inspect(e, func(x ast.Node) bool {
+							switch y := x.(type) {
+							case *ast.CallExpr:
+								if cs2 := w.resolveCall(fn, y); cs2 != nil {
+									if cs2.Key == "fs.patchJSONNumericField" && len(y.Args) == 3 {
+										if sel, ok := ast.Unparen(y.Args[2]).(*ast.SelectorExpr); ok && sel.Sel.Name == "Count" {
+											written = types.ExprString(sel.X)
+										}
+									}
+									if cs2.Key == "encoding.Marshal" && len(y.Args) == 1 {
+										written = types.ExprString(ast.Unparen(y.Args[0]))
+									}
+								}
+							case *ast.Ident:
+								if o := finfo.Uses[y]; o != nil && !seenO[o] {
+									seenO[o] = true
+									for _, d := range defsAll[o] {
+										visit(d, depth+1)
+									}
+								}
+							}
+							return written == ""
+						})
+					}
+					visit(nc.cs.Call.Args[2], 0)
+				}
+				refresh := w.callsReaching(kL2Set)
+				r := gf.Reach(succ, func(x *GNode) bool { return refresh(x) || until(x) }, nil)
+				cached := ""
+				var cpos token.Pos
+				for _, x := range gf.Nodes {
+					if !r.Seen[x.ID] || !refresh(x) {
+						continue
+					}
+					for _, cs2 := range x.Calls {
+						for _, a := range cs2.Call.Args {
+							if u, ok := ast.Unparen(a).(*ast.UnaryExpr); ok && u.Op == token.AND {
+								if t := finfo.TypeOf(u.X); t != nil && strings.HasSuffix(t.String(), "sop.StoreInfo") {
+									cached = types.ExprString(ast.Unparen(u.X))
+									cpos = a.Pos()
+								}
+							}
+						}
+					}
+				}
+				if written != "" && cached != "" {
+					c.Check(written == cached, r4, fmt.Sprintf("%s: write #%d - the record cached is the record written", name, ordinalOf(w, fn, nc.cs)), cpos, "cache gets &"+written,
+						fmt.Sprintf("the file is written from `%s` but the cache is refreshed with `%s`: after this step the shared cache holds a count that is not the one on disk, readers report it and the next Update adds its delta to it", written, cached), nil)
+				}
+			}
+			offs := gf.MustFollowFrom(succ, func(x *GNode) bool { return calls(kL2Set, kL2Del)(x) || w.callsReaching(kL2Set, kL2Del)(x) }, until)
+			c.Offences(gf, offs, r4, construct, nc.cs.Call.Pos(), "SetStruct / Delete after the successful write, before the next store",
+				"a store's metadata is rewritten on disk while the shared cache keeps (or was just re-seeded with) the previous record: readers and the next Update, which adds its delta to the cached count, work from a count that is not the one on disk")
+		}
+	}
+	c.Check(nW >= 4, r4, "StoreRepository.Update: storeinfo write sites inventoried", f.Decl.Pos(), fmt.Sprintf("%d write sites (commit path and undo)", nW), fmt.Sprintf("found %d write sites, expected at least 4", nW), nil)
 }
